@@ -29,6 +29,46 @@ theorem quotaSelector_refusals (quota : Rat → Nat → Rat) (eq : Bool) (om : O
     · exact absurd rfl hom
   · left; exact ⟨_, rfl⟩
 
+/-- **QuotaSelector** (documented as electing only candidates over the quota — DESIGN 12.2 reads "exactly n" as
+    "at most n" for it): every answer has the selection shape for some `m ≤ n` seats over the candidates of the votes,
+    and `m = n` as soon as at least `n` candidates reach the quota. -/
+theorem quotaSelector_shape (quota : Rat → Nat → Rat) (eq : Bool) (om : OnMore) (votes : Votes) (hwf : C09.WF votes)
+    (n : Nat) (h1 : 1 ≤ n) (r : List Slot) (h : quotaSelector quota eq om votes n = .ok r) :
+    ∃ m, m ≤ n ∧ SelShape (keys votes) m r ∧
+      (n ≤ (votes.filter (fun p => decide (p.2 > quota (sumVals votes) n) ||
+        (eq && decide (p.2 = quota (sumVals votes) n)))).length → m = n) := by
+  unfold quotaSelector at h
+  simp only at h
+  generalize hov : votes.filter (fun p => decide (p.2 > quota (sumVals votes) n) ||
+        (eq && decide (p.2 = quota (sumVals votes) n))) = over at h ⊢
+  have hsub : List.Sublist over votes := hov ▸ List.filter_sublist
+  have hwf' : C09.WF over := List.Nodup.sublist (List.Sublist.map _ hsub) hwf
+  have hkeys : ∀ c ∈ keys over, c ∈ keys votes := fun c hc => (List.Sublist.map _ hsub).subset hc
+  have hmain : ∀ m, 1 ≤ m → m ≤ over.length → SelShape (keys votes) m (getNBest over m) :=
+    fun m hm1 hm => (getNBest_shape over hwf' m hm1 hm).mono hkeys
+  have hres : r = getNBest over n := by
+    split at h
+    · cases om
+      · cases h
+      · injection h with h; exact h.symm
+      · cases h
+    · injection h with h; exact h.symm
+  subst hres
+  rcases Nat.lt_or_ge over.length n with hlt | hge
+  · refine ⟨over.length, le_of_lt hlt, ?_, fun hn => by omega⟩
+    rcases Nat.eq_zero_or_pos over.length with h0 | hpos
+    · have : over = [] := List.length_eq_zero_iff.mp h0
+      subst this
+      rw [h0]
+      have : getNBest [] n = [] := by rw [getNBest_all [] n (by simp)]; rfl
+      rw [this]
+      exact ⟨rfl, by simp, by simp, by simp [electedOf], by simp, by simp⟩
+    · have := hmain over.length hpos (le_refl _)
+      rw [getNBest_all over over.length (le_refl _)] at this
+      rw [getNBest_all over n (le_of_lt hlt)]
+      exact this
+  · exact ⟨n, le_refl _, hmain n h1 hge, fun _ => rfl⟩
+
 /-! ### distributions -/
 
 theorem haResult_sum (cfg : HACfg) :
